@@ -941,6 +941,13 @@ def c07_r2(ctx, f):
         u = unname(x)
         if x[0] == "call" and x[1] == "len" and strip_refs(x[2][0]) == ("param", 1):
             return "f"
+        if x[0] == "call" and x[1] == "len":
+            inner = strip_refs(x[2][0])
+            if inner[0] == "call" and inner[1] == "slice_index" and strip_refs(inner[2][0]) == ("param", 1):
+                r_ = inner[2][1]
+                if r_[0] == "agg" and (r_[2] or "").endswith("RangeFrom") and len(r_[4]) == 1:
+                    k_ = poly.normalise(r_[4][0], ren)
+                    return "f" if k_ == C(0) else ("f_tail", k_.key())
         if x[0] == "call" and x[1] == "len" and strip_refs(x[2][0]) == ("param", 2):
             return "g"
         if u[0] == "un" and u[1] == "PtrMetadata" and strip_refs(u[2]) == ("param", 2):
@@ -1017,7 +1024,12 @@ def c07_r2(ctx, f):
               expected="0 .. len(g)", found="%s .. %s" % (jlo.show(), jhi.show()), sample="j in 0..len(g)")
     ilo, ihi = bounds(his[il[0]])
     start = C(256) - F_ - G_
-    ctx.check(rid, ilo == start and ihi == start + F_, fn.path + "/i-range", fn.where(pt), fn.path, "outer loop",
+    unk_i = [a_ for p_ in (ilo, ihi) for a_ in p_.atoms() if a_ not in ("f", "g")]
+    if unk_i and not (ilo == start and ihi == start + F_):
+        ctx.abstain(rid, "outer loop bounds outside the vocabulary: %s .. %s (compared with the dividend's cells below)" % (ilo.show(), ihi.show()),
+                    fn.where(pt))
+    else:
+      ctx.check(rid, ilo == start and ihi == start + F_, fn.path + "/i-range", fn.where(pt), fn.path, "outer loop",
               "the outer loop does not run over the dividend positions start .. start+len(f), start = 256 - len(f) - len(g)",
               expected="%s .. %s" % (start.show(), (start + F_).show()), found="%s .. %s" % (ilo.show(), ihi.show()), sample="i in start..start+len(f)")
     # right-hand side
@@ -1036,26 +1048,92 @@ def c07_r2(ctx, f):
         ctx.abstain(rid, "dividend is not placed by one copy_from_slice", where_fn(fn))
         return
     c = cs[0]
+
+    def rng_of(orig):
+        """(base canon, lo poly, hi poly | None = to the end) of a slice taken by index/index_mut with a range aggregate; None if whole"""
+        if orig.kind != "call" or "index" not in (orig.callee() or ""):
+            return None
+        base = strip_refs(fn.canon(orig.info.call["args"][0], orig.point))
+        r = fn.origins(orig.info.call["args"][1], orig.point, hide_weak=True)
+        if len(r) != 1 or r[0].kind != "agg":
+            return "?"
+        rv = r[0].info.rv
+        ops = [poly.normalise(fn.canon(o, r[0].point), ren) for o in rv["ops"]]
+        nm = (rv.get("path") or "").split("::")[-1]
+        if nm == "Range" and len(ops) == 2:
+            return (base, ops[0], ops[1])
+        if nm == "RangeTo" and len(ops) == 1:
+            return (base, C(0), ops[0])
+        if nm == "RangeFrom" and len(ops) == 1:
+            return (base, ops[0], None)
+        if nm == "RangeFull":
+            return (base, C(0), None)
+        return "?"
+
     d = fn.origins(c.args[0], c.point)
     s = fn.origins(c.args[1], c.point)
-    okp = False
     found = None
-    if len(d) == 1 and d[0].kind == "call" and len(s) == 1 and s[0].kind == "call":
-        dr = fn.origins(d[0].info.call["args"][1], d[0].point)
-        sr = fn.origins(s[0].info.call["args"][1], s[0].point)
-        if len(dr) == 1 and dr[0].kind == "agg" and len(sr) == 1 and sr[0].kind == "agg":
-            dlo = poly.normalise(fn.canon(dr[0].info.rv["ops"][0], dr[0].point), ren)
-            dhi = poly.normalise(fn.canon(dr[0].info.rv["ops"][1], dr[0].point), ren)
-            srv = sr[0].info.rv
-            if srv.get("path") == "std::ops::RangeTo":
-                slo, shi = C(0), poly.normalise(fn.canon(srv["ops"][0], sr[0].point), ren)
+    verdict = None
+    if len(d) == 1 and len(s) == 1:
+        dr = rng_of(d[0])
+        # the source: a range of the dividend parameter, possibly re-sliced first (e.g. leading part dropped)
+        src_lo, src_len = C(0), F_
+        cur = s[0]
+        depth = 0
+        srcs_ok = True
+        while cur.kind == "call" and "index" in (cur.callee() or "") and depth < 3:
+            rr = rng_of(cur)
+            if rr in (None, "?"):
+                srcs_ok = False
+                break
+            base, lo, hi = rr
+            # a slice [lo, hi) of something of length src_len starting at src_lo
+            src_lo = src_lo + lo
+            if hi is not None:
+                src_len = hi - lo
+            elif lo == C(0):
+                pass
+            elif src_len == F_ and strip_refs(base) == ("param", 1):
+                src_len = A(("f_tail", lo.key()))
             else:
-                slo, shi = poly.normalise(fn.canon(srv["ops"][0], sr[0].point), ren), poly.normalise(fn.canon(srv["ops"][1], sr[0].point), ren)
-            found = "rem[%s..%s] = f[%s..%s]" % (dlo.show(), dhi.show(), slo.show(), shi.show())
-            okp = dlo == start and dhi == start + F_ and slo == C(0) and shi == F_ and strip_refs(fn.canon(s[0].info.call["args"][0], s[0].point)) == ("param", 1)
-    ctx.check(rid, okp, fn.path + "/placement", c.where(), fn.path, "dividend placement",
-              "the dividend is not copied whole to rem[start .. start+len(f)]", expected="rem[256-f-g .. 256-g] = f[0..f]", found=found,
-              sample="rem[start..start+len(f)] = f")
+                src_len = src_len - lo
+            nxt = fn.origins(cur.info.call["args"][0], cur.point, hide_weak=True)
+            if len(nxt) != 1:
+                srcs_ok = False
+                break
+            cur = nxt[0]
+            depth += 1
+        srcs_ok = srcs_ok and cur.kind == "param" and cur.info == 1
+        if dr not in (None, "?") and dr[2] is not None and srcs_ok:
+            dlo, dhi = dr[1], dr[2]
+            found = "rem[%s..%s] = f[%s..+%s]" % (dlo.show(), dhi.show(), src_lo.show(), src_len.show())
+            atoms_ok = all(only_known(p_, {"f", "g", 256}) or True for p_ in (dlo, dhi))
+            unknown = [a_ for p_ in (dlo, dhi, src_lo, src_len) for a_ in p_.atoms() if a_ not in ("f", "g")]
+            # the dividend actually copied has length src_len: it must end exactly where the remainder area begins (256 - g),
+            # start len(copied) before that, be the whole dividend, and the outer loop must run over exactly those positions
+            whole = src_lo == C(0) and src_len == F_
+            ends = dhi == C(256) - G_
+            fits = (dhi - dlo) == src_len
+            loop = ilo == dlo and ihi == dhi
+            if whole and ends and fits and loop:
+                verdict = True
+            elif ends and fits and loop and not whole:
+                verdict = None  # a part of the dividend is left out and everything else is aligned: whether that part matters is not decided
+            elif fits and not ends:
+                verdict = False  # the copied cells do not end where the remainder area begins
+            elif unknown:
+                verdict = None  # written with something outside the vocabulary and not provably misaligned
+            else:
+                verdict = False
+            _ = atoms_ok
+    if verdict is None:
+        ctx.abstain(rid, "dividend placement not in the recognised form: %s" % (found or "copy_from_slice operands are not ranges of the "
+                                                                                 "buffer / the dividend"), c.where())
+    else:
+        ctx.check(rid, verdict, fn.path + "/placement", c.where(), fn.path, "dividend placement",
+                  "the dividend is not copied whole to the cells that end where the remainder area begins (rem[256-len(f)-len(g) .. "
+                  "256-len(g)]), or the division loop does not run over exactly those cells", expected="rem[256-f-g .. 256-g] = f[0..f]",
+                  found=found, sample="rem[start..start+len(f)] = f")
 
 
 def _pretty(p, names):
